@@ -186,6 +186,8 @@ def py_devclass(fl, trace):
             if k in ('PH', 'PBufH') and al is False and not seen_first and \
                     ((fl['eut'] == 'client' and a == 'SH') or (fl['eut'] == 'server' and a == 'CH' and not fl.get('hrr'))):
                 out.append('unaligned-first13:%s' % fl['eut'])
+        if k == 'PAlert' and not (fl['ver'] == 'ssl3' and a == 'AWarnNoCert'):
+            out.append('alert-in-place-of-message:%s' % fl['eut'])
         if k in ('PH', 'PBufH') and i > 0 and ((fl['eut'] == 'server' and a == 'CH' and not (v13 and fl.get('hrr'))) or
                                                (fl['eut'] == 'client' and a == 'HReq')):
             out.append('reneg-msg-skipped-in-handshake:%s' % fl['eut'])
@@ -200,6 +202,9 @@ def py_devclass(fl, trace):
                 seen_first = True
         elif k in ('PFrag', 'PBufFrag'):
             pend = True
+    if not v13 and fl['eut'] == 'server' and fl.get('npn') and not fl.get('resume') and \
+            not any(k in ('PH', 'PBufH') and a == 'NPN' for (_, k, a, _) in kinds):
+        out.append('announced-npn-skipped:server')
     if not v13 and fl['eut'] == 'client' and fl.get('ticket') and \
             not any(k in ('PH', 'PBufH') and a == 'NST' for (_, k, a, _) in kinds):
         out.append('nst-skipped:client')
@@ -223,6 +228,19 @@ def flavours(tier):
         F.append(dict(eut=eut, ver='tls12', kx='ecdhe', ticket=True))
         F.append(dict(eut=eut, ver='tls12', kx='rsa', npn=True))
         F.append(dict(eut=eut, ver='tls12', kx='rsa', resume=True))
+        # client auth requested, no client certificate, every version
+        F.append(dict(eut=eut, ver='tls10', kx='rsa', reqcert=True, clientcert=False))
+        F.append(dict(eut=eut, ver='tls11', kx='dhe', reqcert=True, clientcert=False))
+        # boundary values of the options that decide which messages are mandatory
+        F.append(dict(eut=eut, ver='tls12', kx='rsa', npn_c=['http/1.1'], npn_s=[]))
+        F.append(dict(eut=eut, ver='tls10', kx='dhe', npn_c=['http/1.1'], npn_s=[]))
+        F.append(dict(eut=eut, ver='tls12', kx='ecdhe', npn_c=None, npn_s=['x']))
+        F.append(dict(eut=eut, ver='tls12', kx='rsa', npn_c=['http/1.1'], npn_s=None))
+        F.append(dict(eut=eut, ver='tls12', kx='rsa', npn=True, alpn=True))
+        F.append(dict(eut=eut, ver='tls12', kx='rsa', tk_keys=True, tk_count=0))
+        F.append(dict(eut=eut, ver='tls12', kx='ecdhe', tk_keys=False, tk_count=1))
+        F.append(dict(eut=eut, ver='tls12', kx='srp', reqcert=True, clientcert=False))
+        F.append(dict(eut=eut, ver='tls12', kx='anon', reqcert=True, clientcert=False))
         F.append(dict(eut=eut, ver='tls13', kx='cert13'))
         F.append(dict(eut=eut, ver='tls13', kx='cert13', hrr=True))
         F.append(dict(eut=eut, ver='tls13', kx='cert13', reqcert=True, clientcert=True))
@@ -276,6 +294,11 @@ def single_devs(fl, log, rng, quick):
             devs.append([dict(op='insert', k=k, what=rn, nohash=True)])
         for w in (['Fin', 'CertE', 'NST'] if not quick else [rng.choice(['Fin', 'CertE', 'NST'])]):
             devs.append([dict(op='replace', k=k, what=w)])
+        # a mandatory message replaced by a warning alert (the SSLv3 no_certificate idiom, and another)
+        if kind != 'CCS' and k > 0:
+            devs.append([dict(op='replace', k=k, what='AlertNoCert')])
+            if not quick or rng.random() < 0.3:
+                devs.append([dict(op='replace', k=k, what='AlertWarn')])
         if ep >= 1 and not fl.get('early'):
             devs.append([dict(op='epoch', k=k, epoch=ep - 1)])
         if kind != 'CCS':
@@ -304,6 +327,25 @@ def outcome_code(cl):
     return (3, 0)
 
 
+def effective(fl, obs):
+    """the configuration the model and the grammar are instantiated with: what the ServerHello /
+    the server's flight actually announced (emission side), not what the options intended"""
+    e = dict(fl)
+    if not obs:
+        return e
+    if fl['ver'] != 'tls13':
+        if 'npn' in obs:
+            e['npn'] = bool(obs['npn'])
+        if 'ticket' in obs:
+            e['ticket'] = bool(obs['ticket'])
+        if 'reqcert' in obs and obs.get('full'):
+            e['reqcert'] = bool(obs['reqcert'])
+    else:
+        if fl['eut'] == 'server' and 'hrr' in obs:
+            e['hrr'] = bool(obs['hrr'])
+    return e
+
+
 def run_case(job):
     """worker: one live run"""
     import c06_live as L
@@ -324,7 +366,7 @@ def run_case(job):
         trace = trace[:last + 1]
     return {'fl': fl, 'ops': ops, 'trace': trace, 'all_syms': r['syms'], 'eut': r['eut'], 'peer': r['peer'],
             'applied': len(r['applied']), 'readbuf': r['eut_readbuf'], 'closed': r['eut_closed'],
-            'log': r['honest_log'], 'exc': r.get('eut_exc'), 'dt': time.time() - t0,
+            'log': r['honest_log'], 'exc': r.get('eut_exc'), 'dt': time.time() - t0, 'obs': r.get('observed'),
             'tickets12': r['eut_tickets12']}
 
 
@@ -475,10 +517,17 @@ def run(ctx):
         # ---- honest runs: every flavour must complete, its trace must be allowed
         honest = pool.map(run_case, [(fl, [], 1) for fl in fls])
         jobs = []
+        eff_of = {}
+        for h in honest:
+            if 'error' not in h:
+                eff_of[json.dumps(h['fl'], sort_keys=True)] = effective(h['fl'], h.get('obs'))
         for h in honest:
             if 'error' in h or h['eut'][0] != 'ok' or h['peer'][0] != 'ok':
                 tie_broken = tie_broken or ('honest flavour does not complete: %s %s' % (h['fl'], h.get('error') or (h['eut'], h['peer'])))
-                continue
+                # the deviations are still derived from whatever the honest peer got to send: an
+                # endpoint that refuses the honest flight may well accept a deviating one
+                if 'error' in h or len(h.get('log') or []) < 2:
+                    continue
             devs = single_devs(h['fl'], h['log'], rng, quick)
             if not quick:
                 # two deviations: a sample of pairs
@@ -489,10 +538,10 @@ def run(ctx):
                         pairs.append(a + b2)
                 devs = devs + pairs
             elif len(devs) > 70:
-                keep = [d for d in devs if d[0]['op'] in ('skip', 'swap', 'span', 'merge', 'glue') or d[0].get('what') in ('CR', 'Undec', 'CH', 'HReq')]
-                rest = [d for d in devs if not (d[0]['op'] in ('skip', 'swap', 'span', 'merge', 'glue') or d[0].get('what') in ('CR', 'Undec', 'CH', 'HReq'))]
+                keep = [d for d in devs if d[0]['op'] in ('skip', 'swap', 'span', 'merge', 'glue') or d[0].get('what') in ('CR', 'Undec', 'CH', 'HReq', 'AlertNoCert')]
+                rest = [d for d in devs if not (d[0]['op'] in ('skip', 'swap', 'span', 'merge', 'glue') or d[0].get('what') in ('CR', 'Undec', 'CH', 'HReq', 'AlertNoCert'))]
                 rng.shuffle(rest)
-                devs = keep + rest[:max(0, 95 - len(keep))]
+                devs = keep + rest[:max(0, 100 - len(keep))]
             for d in devs:
                 jobs.append((h['fl'], d, 1))
         ctx.log('%d flavours, %d deviation runs' % (len(fls), len(jobs)))
@@ -517,7 +566,10 @@ def run(ctx):
                 ctx.log('harness error: %s' % r['error'][-300:])
             tie_broken = tie_broken or ('live run failed in the harness: %s' % r['error'][-200:])
             continue
-        fl, trace = r['fl'], r['trace']
+        fl0, trace = r['fl'], r['trace']
+        # the model is instantiated from what the honest run of this flavour put on the wire
+        fl = eff_of.get(json.dumps(fl0, sort_keys=True), fl0)
+        r['eff'] = fl
         allowed = py_allowed(fl, trace)
         completed = r['eut'][0] == 'ok'
         devs = py_devclass(fl, trace) if completed else []
@@ -526,7 +578,7 @@ def run(ctx):
                opk, completed, allowed)
         ctx.count('live-deviation-vs-property', 1, [key],
                   sample={'fl': fl, 'ops': r['ops'], 'eut': r['eut'], 'trace': [tok(s) for s in trace]} if len(cases) % 211 == 0 else None)
-        rep = {'flavour': fl, 'ops': r['ops'], 'eut_outcome': r['eut'], 'trace': [tok(s) for s in trace],
+        rep = {'flavour': fl0, 'effective': fl, 'ops': r['ops'], 'eut_outcome': r['eut'], 'trace': [tok(s) for s in trace],
                'how': 'PYTHONPATH=/repo:/verif/harness: c06_live.run_live(flavour, ops) (./check C06 --replay <this file>)'}
         if completed and not allowed:
             for dk in (devs or ['unclassified:%s:%s' % (fl['eut'], opk)]):
@@ -578,11 +630,16 @@ def run(ctx):
         for (r, allowed, dev) in cases:
             k, d = outcome_code(r['eut'])
             badfin = next((i for i, sy in enumerate(r['trace']) if len(sy) > 4 and sy[4] == 'bad'), -1)
-            lits.append('(%s, [%s], (%d, %d), %s, %s, %s)' % (cfg_lit(r['fl']), '; '.join(sym_lit(s) for s in r['trace']),
+            lits.append('(%s, [%s], (%d, %d), %s, %s, %s)' % (cfg_lit(r.get('eff', r['fl'])), '; '.join(sym_lit(s) for s in r['trace']),
                                                               k, d, b(allowed), b(dev), vlib.zlit(badfin)))
         (bad_model, bad_spec), errs = vlib.coq_bad_indices(
             'C06', [], 'CaseT', ['chk_model', 'chk_spec'], lits,
             shard=max(40, (len(lits) + 15) // 16), preamble=PREAMBLE)
+        if any(('rc=-9' in e) or ('rc=137' in e) or ('rc=-15' in e) for e in errs):
+            ctx.log('coqc worker killed from outside, evaluating again')
+            (bad_model, bad_spec), errs = vlib.coq_bad_indices(
+                'C06', [], 'CaseT', ['chk_model', 'chk_spec'], lits,
+                shard=max(40, (len(lits) + 15) // 16), preamble=PREAMBLE)
         ctx.count('model-vs-impl(vm_compute)', len(lits), [('agree', len(lits) - len(bad_model))])
         for e in errs:
             tie_broken = 'case evaluation failed: ' + e[:300]
@@ -632,6 +689,8 @@ def replay(ctx, path):
     if 'error' in out:
         print(out['error'])
         return 1
+    hon = run_case((r['flavour'], [], 1))
+    out['fl'] = effective(r['flavour'], hon.get('obs'))
     allowed = py_allowed(out['fl'], out['trace'])
     print('endpoint under test:', out['eut'], ' trace:', ' '.join(tok(s) for s in out['trace']))
     print('allowed by the grammar:', allowed, ' deviation classes:', py_devclass(out['fl'], out['trace']))
